@@ -71,12 +71,14 @@ EvJob(b, i, k, lv, t, isnew, mval) ==
   LET newb == b = Len(B) + 1
       B1   == IF newb THEN Append(B, NewBracket((b - 1) % NumOff)) ELSE B
       sys  == cf.sys[B1[b].off + 1]
+      over == k > sys[i][1]        \* a job beyond the configured size of the rung
   IN
-  /\ b \in 1..(Len(B) + 1) /\ i \in 1..Len(sys) /\ k \in 1..sys[i][1] /\ t \in Trials
+  /\ b \in 1..(Len(B) + 1) /\ i \in 1..Len(sys) /\ k >= 1 /\ t \in Trials
   /\ flags' = flags
+       \cup Flag(over, "rung_overfilled")                                                        \* C05: rung of the configured size
        \cup Flag(newb /\ \E c \in 1..Len(B) : c >= primary /\ HasFree(c), "new_bracket_while_free")
        \cup Flag(lv # sys[i][2], "wrong_level")
-       \cup Flag(B1[b].rg[i][k].v # Free, "slot_handed_twice")                                  \* C05: rung of the configured size
+       \cup Flag(~over /\ B1[b].rg[i][k].v # Free, "slot_handed_twice")                          \* C05: rung of the configured size
        \cup Flag(\E j \in 1..sys[i][1] : j # k /\ B1[b].rg[i][j].v # Free /\ B1[b].rg[i][j].t = t, "trial_twice_in_rung")   \* C05: distinct trials
        \cup Flag(i > 1 /\ isnew, "new_trial_in_upper_rung")
        \cup Flag(i = 1 /\ ~isnew, "resume_in_lowest_rung")
@@ -87,11 +89,15 @@ EvJob(b, i, k, lv, t, isnew, mval) ==
                   /\ ~TopFeasible(b, i - 1, (TrialsIn(b, i) \cup {t}) \cap TrialsIn(b, i - 1), RSize(b, i)), "promoted_not_top")   \* C05
        \cup Flag(~isnew /\ t \in rmv, "resume_after_removable")                                 \* C20
        \cup Flag(~isnew /\ st[t] \in {"running", "none"}, "resume_not_paused")                    \* C05
-       \cup Flag(~isnew /\ st[t] = "failed", "failed_promoted")                                  \* C13 (C05 ranks failures last, it does not exclude them)
-       \cup Flag(~newb /\ i # CurRung(b), "job_outside_current_rung")
+       \* C13 (C05 ranks failures last, it does not exclude them): a failed trial is resumed ...
+       \cup Flag(~isnew /\ st[t] = "failed" /\ ~newb /\ i > 1
+                  /\ Cardinality({u \in TrialsIn(b, i - 1) : ValOf(b, i - 1, u) # NaN}) >= RSize(b, i), "failed_promoted")          \* ... although enough valid results exist
+       \cup Flag(~isnew /\ st[t] = "failed" /\ ~newb /\ i > 1
+                  /\ Cardinality({u \in TrialsIn(b, i - 1) : ValOf(b, i - 1, u) # NaN}) < RSize(b, i), "failed_promoted_too_few_valid")   \* ... to fill the next rung
+       \cup Flag(~newb /\ i # CurRung(b) /\ ~over, "job_outside_current_rung")
        \cup Flag(cf.mra /\ mval # lv, "wrong_max_resource_attr")
-  /\ B' = [B1 EXCEPT ![b].rg[i][k] = [t |-> t, v |-> Pend]]
-  /\ pslot' = [pslot EXCEPT ![t] = <<b, i, k>>]
+  /\ B' = IF over THEN B1 ELSE [B1 EXCEPT ![b].rg[i][k] = [t |-> t, v |-> Pend]]
+  /\ pslot' = [pslot EXCEPT ![t] = IF over THEN <<b, i, 0>> ELSE <<b, i, k>>]      \* slot 0 = a job without a slot
   /\ st' = [st EXCEPT ![t] = "running"]
   /\ lastr' = [lastr EXCEPT ![t] = IF isnew THEN 0 ELSE @]
   /\ nstart' = IF isnew THEN nstart + 1 ELSE nstart
@@ -104,7 +110,7 @@ EvResult(t, r, v, d) ==
      /\ r <= lv
      /\ flags' = flags \cup Flag(r = lv /\ d # "PAUSE", "pause_at_milestone") \cup Flag(r < lv /\ d # "CONTINUE", "decide_off_milestone")
      /\ IF r = lv
-          THEN /\ B' = [B EXCEPT ![b].rg[i][k].v = v]
+          THEN /\ B' = IF k = 0 THEN B ELSE [B EXCEPT ![b].rg[i][k].v = v]
                /\ pslot' = [pslot EXCEPT ![t] = <<>>]
                /\ st' = [st EXCEPT ![t] = "paused"]
           ELSE UNCHANGED <<B, pslot, st>>
@@ -114,7 +120,7 @@ EvResult(t, r, v, d) ==
 \* on_trial_error(t): the job of a pending slot crashed; the slot counts as filled, ranked last
 EvFail(t) ==
   /\ st[t] = "running" /\ pslot[t] # <<>>
-  /\ LET b == pslot[t][1]  i == pslot[t][2]  k == pslot[t][3] IN B' = [B EXCEPT ![b].rg[i][k].v = NaN]
+  /\ LET b == pslot[t][1]  i == pslot[t][2]  k == pslot[t][3] IN B' = IF k = 0 THEN B ELSE [B EXCEPT ![b].rg[i][k].v = NaN]
   /\ pslot' = [pslot EXCEPT ![t] = <<>>]
   /\ st' = [st EXCEPT ![t] = "failed"]
   /\ UNCHANGED <<cf, primary, lastr, nstart, rmv, flags>>
@@ -137,7 +143,7 @@ EvCrash ==
   /\ UNCHANGED <<cf, B, primary, pslot, st, lastr, nstart, rmv>>
 
 NoFlag(f) == f \notin flags
-RungFilledByDistinctTrials == NoFlag("slot_handed_twice") /\ NoFlag("trial_twice_in_rung") /\ NoFlag("wrong_level")
+RungFilledByDistinctTrials == NoFlag("rung_overfilled") /\ NoFlag("slot_handed_twice") /\ NoFlag("trial_twice_in_rung") /\ NoFlag("wrong_level")
                               /\ NoFlag("new_trial_in_upper_rung") /\ NoFlag("resume_in_lowest_rung")
                               /\ NoFlag("job_outside_current_rung")
 ResumeOnlyAfterRungComplete == NoFlag("resume_before_rung_complete") /\ NoFlag("resume_not_paused")
@@ -145,7 +151,7 @@ PromotedAreTopK == NoFlag("promoted_not_top") /\ NoFlag("promoted_from_elsewhere
 NextJobNeverBlocks == NoFlag("scheduler_raised") /\ NoFlag("new_bracket_while_free")
 PauseAtMilestone == NoFlag("pause_at_milestone") /\ NoFlag("decide_off_milestone") /\ NoFlag("wrong_max_resource_attr")
 IdsInSequence == NoFlag("trial_id_sequence")
-FailedNeverPromoted == NoFlag("failed_promoted")
+FailedNeverPromoted == NoFlag("failed_promoted") /\ NoFlag("failed_promoted_too_few_valid")
 RemovableOnlyNonPromoted == NoFlag("removable_but_resumable") /\ NoFlag("resume_after_removable")
 \* brackets cycle through the configured rung systems (state invariant)
 BracketsCycleOffsets == \A b \in 1..Len(B) : B[b].off = (b - 1) % NumOff
